@@ -38,6 +38,11 @@ def pure_cases(tier, seed):
         # version strings as strftime patterns produce them: plain, dotted dates, empty, dot-led, with dashes
         ver = rng.choice(["v" + num, "v" + num, "v2026.10.01-" + num, "", "." + num, num + "-1", "v." + num + ".", "a.b"])
         k = rng.choice([0, 0, 1, 2, 9, 10, 11, 99, 100, 1234])
+        if i % 4 == 0:
+            # deep trees and long store roots: whole store paths around and beyond 255 bytes (NAME_MAX is a bound on
+            # one component, not on the path), names with compound extensions
+            root = "/" + "/".join("r" * rng.randint(1, 40) for _ in range(rng.randint(1, 4)))
+            rel = "/".join("d" * rng.randint(1, 30) for _ in range(rng.randint(1, 9))) + "/" + rng.choice(["backup.tar.gz", "a.b.c.d", "a..b", "x.y", "noext"])
         cases.append(("e%d" % n, "sp %s %s %s %d" % (hexs(root), hexs(rel), hexs(ver), k), ("sp", root, rel, ver, k)))
         n += 1
     return cases
